@@ -179,10 +179,14 @@ func run(c *core.Ctx) {
 	c.Assume("events are built with pipeline.VerifNewEvent + Root.DecodeBytes (the kinds a real split produces), not by a running pipeline")
 	c.Assume("Kafka framing is observed at the plugin's KafkaClient interface (bytes copied at ProduceSync time), not on the wire")
 
-	perPlugin := c.N(300, 4000)
-	chunk := c.N(12, 40)
+	perPlugin := c.N(800, 12000)
+	chunk := c.N(20, 60)
 	var jobs []job
+	only := os.Getenv("C19_PLUGINS") // debugging aid: comma separated subset (the floors then fail the run: exit 2)
 	for _, p := range pluginNames {
+		if only != "" && !strings.Contains(","+only+",", ","+p+",") {
+			continue
+		}
 		for from := 0; from < perPlugin; from += chunk {
 			j := job{plugin: p}
 			for k := from; k < from+chunk && k < perPlugin; k++ {
@@ -208,6 +212,23 @@ func run(c *core.Ctx) {
 		if n == 1 {
 			c.Violation(sig, what, witness)
 		}
+	}
+	noConfirm := os.Getenv("C19_NO_CONFIRM") == "1" // debugging aid
+	recurs := func(plugin string, no int, sig string) bool {
+		r := core.RunChild("run", childIn{Plugin: plugin, Cases: []int{no}, Seeds: []int64{c.SubSeed("case|"+plugin, no)}},
+			core.ChildOpt{Timeout: 5 * time.Minute, Env: []string{"C19_TRACE="}})
+		_, done := crashWhere(r)
+		for _, out := range done {
+			if out == nil {
+				continue
+			}
+			for _, v := range out.Violations {
+				if v.Signature == sig {
+					return true
+				}
+			}
+		}
+		return false
 	}
 	absorb := func(j job, r *core.ChildResult) {
 		_, done := crashWhere(r)
@@ -244,6 +265,18 @@ func run(c *core.Ctx) {
 				c.Inconclusive(in)
 			}
 			for _, v := range out.Violations {
+				// a signature not yet confirmed in this run: the case (deterministic
+				// inputs) is re-run alone and must show it again. An observation that
+				// does not recur decides nothing (e.g. a scheduling dependent
+				// effect); it is kept in the evidence as inconclusive.
+				mu.Lock()
+				known := seenSig[v.Signature] > 0
+				mu.Unlock()
+				if !known && !noConfirm && !recurs(j.plugin, no, v.Signature) {
+					c.Count("violations_not_reproduced_on_rerun", 1)
+					c.Inconclusive("violation not reproduced when its case was re-run alone: " + v.Signature)
+					continue
+				}
 				violate(v.Signature, v.What, v.Witness)
 			}
 		}
